@@ -77,6 +77,10 @@ def judge(res, cs, cr):
                     bad = ('wrong-value', f'evaluates to {show_val(lib[1])}, set-theoretic value is {show_val(exp)}')
             else:
                 names = [ec.DOCUMENTED.get(e, hex(e)) for e in lib[1]]
+                if names and set(names) <= {'iterationsLimit', 'booleanLimit', 'typedOverflow'} and re_.evaluate(tree, ctx, strict=True, max_steps=15000)[0] == 'budget':
+                    # a documented resource limit on a workload that is heavy for the reference evaluator as well: not a verdict
+                    res.count('inconclusive')
+                    continue
                 bad = ('fails-on-defined', f'evaluation fails with {names} although the value {show_val(exp)} is defined')
             res.count('judged')
             nontrivial = rg.count_nodes(tree) >= 5 and exp != frozenset()
